@@ -625,7 +625,8 @@ def run_smoke(drv, case) -> Outcome:
         T = seq.get_duration()
         nm = NoiseModel(**noise) if noise else NoiseModel()
         np.random.seed(int(case.get("npseed", 0)))
-        emu = QutipEmulator.from_sequence(seq, config=SimConfig.from_noise_model(nm),
+        rate = float(case.get("rate", 1.0))
+        emu = QutipEmulator.from_sequence(seq, sampling_rate=rate, config=SimConfig.from_noise_model(nm),
                                           evaluation_times=[t * T / 1000 for t in rel_times if t * T / 1000 <= T / 1000])
         init = None
         if case.get("init"):
@@ -678,6 +679,15 @@ def run_smoke(drv, case) -> Outcome:
                     ref = np.sin(omega * t / 2) ** 2
                     if abs(p_r - ref) > 5e-3:
                         out.fail("rabi", f"P_r({t} us) = {p_r}, analytic sin^2(Omega t/2) = {ref}")
+            if case.get("area") is not None:
+                # isolated atom, one resonant square pulse of area theta after an idle period: P_r = sin^2(theta/2)
+                out.evaluations += 1
+                p_r = abs(legacy.states[-1].full()[0, 0]) ** 2
+                ref = np.sin(float(case["area"]) / 2) ** 2
+                if abs(p_r - ref) > 0.03:
+                    out.fail("analytic-after-idle",
+                             f"legacy emulator, sampling_rate={rate}: P_r = {p_r:.4f} after a pulse of area "
+                             f"{float(case['area']):.4f}, analytic {ref:.4f} (T={T})", engine="legacy")
         # ---- V2 on the same sequence / configuration ----
         state_obs = StateResult(evaluation_times=rel_times)
         out.evaluations += 1
@@ -688,7 +698,7 @@ def run_smoke(drv, case) -> Outcome:
                 from pulser_simulation import QutipState
 
                 extra["initial_state"] = QutipState(init, eigenstates=("r", "g"))
-            cfg = QutipConfig(observables=[state_obs], noise_model=nm, **extra)
+            cfg = QutipConfig(observables=[state_obs], noise_model=nm, sampling_rate=rate, **extra)
             backend = QutipBackendV2(seq, config=cfg)
             res = backend.run()
         except Exception as e:  # noqa: BLE001
@@ -713,6 +723,15 @@ def run_smoke(drv, case) -> Outcome:
                              f"averaged density matrix: trace {np.trace(m)}, hermiticity "
                              f"{np.max(np.abs(m - m.conj().T)):.2g}, min eig {ev.min():.2g}")
             return out
+        if case.get("area") is not None:
+            out.evaluations += 1
+            q = res.state[-1].to_qobj()
+            p_r = (abs(q.full()[0, 0]) ** 2) if q.isket else float(np.real(q.full()[0, 0]))
+            ref = np.sin(float(case["area"]) / 2) ** 2
+            if abs(p_r - ref) > 0.03:
+                out.fail("analytic-after-idle",
+                         f"QutipBackendV2, sampling_rate={rate}: P_r = {p_r:.4f} after a pulse of area "
+                         f"{float(case['area']):.4f}, analytic {ref:.4f} (T={T})", engine="v2")
         v2_ts = [float(x) for x in res.get_result_times(state_obs)]
         for t_rel, s in zip(v2_ts, res.state):
             idx = [i for i, t in enumerate(own_times) if abs(t / T * 1e3 - t_rel) <= 0.5 / T]
@@ -740,7 +759,7 @@ def run_smoke(drv, case) -> Outcome:
 
 def gen_smoke(rng) -> dict:
     label = rng.choice(["rabi", "zero", "gr2", "gr2", "delay-pulse", "three-level", "three-level-noise",
-                        "dephasing", "xy", "critical-T", "initial-state"])
+                        "dephasing", "xy", "critical-T", "initial-state", "idle-pulse-rates", "idle-pulse-rates"])
     amp = rng.choice([3.0, 6.283185307179586, 10.0])
     dur = rng.choice([64, 100, 120, 200, 300])
     n = rng.choice([1, 2])
@@ -770,6 +789,14 @@ def gen_smoke(rng) -> dict:
         segs = [dict(ch="ryd", dur=rng.choice([52, 104, 208, 72]), amp=amp, det=0.0, phase=0.0)]
     elif label == "initial-state":
         case["init"] = flat_of(product_state(rng, 2, n))
+    elif label == "idle-pulse-rates":
+        # analytic reference family: isolated atom, idle period, resonant square pulse of area theta, zero tail;
+        # the answer may not depend on the sampling rate
+        n = 1
+        theta = rng.choice([3.141592653589793, 1.5707963267948966])
+        segs = [dict(ch="ryd", delay=rng.choice([1000, 3000])),
+                dict(ch="ryd", dur=100, amp=theta / 0.1, det=0.0, phase=0.0), dict(ch="ryd", delay=100)]
+        case.update(area=theta, rate=rng.choice([1.0, 0.5, 0.25, 0.2, 0.1]))
     grid = [0.0, 0.25, 0.5, 0.75, 1.0]
     times = sorted(set(rng.sample(grid, rng.randint(1, 3)) + [1.0]))
     case.update(seq=dict(n=n, spacing=rng.choice([6.0, 9.0]), segments=segs), times=times, noise=noise)
@@ -779,7 +806,7 @@ def gen_smoke(rng) -> dict:
 def shrink_smoke(case):
     segs = case["seq"]["segments"]
     for i in range(len(segs)):
-        if len(segs) > 1:
+        if len(segs) > 1 and not (case.get("area") is not None and "dur" in segs[i]):
             yield dict(case, seq=dict(case["seq"], segments=segs[:i] + segs[i + 1:]))
     if case["seq"]["n"] > 1:
         yield dict(case, seq=dict(case["seq"], n=1))
